@@ -382,6 +382,7 @@ def failure_key(verdict):
     """Key of an implementation failure: panic site (file:function#ordinal), signal, timeout."""
     first = verdict.split(" ")[0]
     if first.startswith("crash:") and "stack overflow" in verdict: return "impl-failure:stack-overflow"
+    if first.startswith("internal-error:"): return "impl-failure:" + first[:70]
     m = re.match(r"panic@(.*):(\d+)$", first)
     if m: return "impl-failure:panic@" + panic_site(m.group(1), int(m.group(2)))
     if first.startswith("panic@"): return "impl-failure:" + first
